@@ -24,7 +24,7 @@ Here is a semantic property that the library is supposed to satisfy:
 
 Other engineers have already proposed these changes (short tags): {earlier}. Yours must be DIFFERENT from all of them in kind and, if possible, in location (a different function, clause of the property, model kind or code path).
 
-Task: produce ONE change to the library source (files under {wt}/opfython only; not tests) that BREAKS this property while (a) the package still imports/compiles, and (b) the whole existing test suite still passes exactly as before (same tests pass). The change should look like a plausible developer mistake or "optimisation"/refactoring (off-by-one, wrong comparison, stale state, wrong index, missed case, two sites that each look fine alone...), NOT an obviously sabotaged line. Look in places the earlier proposals did not touch: interactions between two public calls (state left behind by one call and read by the next), rarely used public functions and options, default arguments and constants, dtype / shape / ordering assumptions about caller data, behaviour when an object is reused, copied or saved and loaded, helper functions shared by several callers. Strongly prefer a change that needs something specific to manifest - a multi-step sequence of API calls, a particular configuration (e.g. index arrays, pre-computed distances, a non-default metric or k range, max policy), two cooperating sites that each look fine alone, a rarely taken branch, an unusual input (ties, duplicates, particular sizes, magnitudes or orderings) - rather than one that any ordinary use would expose immediately. Small diff (ideally 1-10 lines).
+Task: produce ONE change to the library source (files under {wt}/opfython only; not tests) that BREAKS this property while (a) the package still imports/compiles, and (b) the whole existing test suite still passes exactly as before (same tests pass). The change should look like a plausible developer mistake or "optimisation"/refactoring (off-by-one, wrong comparison, stale state, wrong index, missed case, two sites that each look fine alone...), NOT an obviously sabotaged line. Look in places the earlier proposals did not touch: interactions between two public calls (state left behind by one call and read by the next), rarely used public functions and options, default arguments and constants, dtype / shape / ordering assumptions about caller data, behaviour when an object is reused, copied or saved and loaded, helper functions shared by several callers, module-level or class-level state shared between different objects (one model affecting another), numerical corner cases (overflow / underflow, NaN, infinities, negative zero, catastrophic cancellation), argument forms (lists vs arrays, 1-D vs 2-D, a single sample, k = n - 1, empty sets), parameter endpoints. Strongly prefer a change that needs something specific to manifest - a multi-step sequence of API calls, a particular configuration (e.g. index arrays, pre-computed distances, a non-default metric or k range, max policy), two cooperating sites that each look fine alone, a rarely taken branch, an unusual input (ties, duplicates, particular sizes, magnitudes or orderings) - rather than one that any ordinary use would expose immediately. Small diff (ideally 1-10 lines).
 
 Deliver, in the directory {wt}/_seed/ :
   1. patch.diff  - output of `git -C {wt} diff -- opfython` (must apply with `git apply` to a clean checkout);
